@@ -306,11 +306,15 @@ def build_p2sh(ctx, release=False):
 
 # ---------------------------------------------------------------- engines
 
+MAX_HANGS_PER_SHARD = 2
+
+
 def _run_lines(exe, lines, timeout, label, extra_env=None):
     """Feed `lines` to a line-protocol executable; returns one output per line.
     A process that dies or stalls marks the offending line ABORT/HANG and is restarted."""
     results = []
     idx = 0
+    hangs = 0
     n = len(lines)
     e = dict(os.environ)
     if extra_env:
@@ -339,6 +343,12 @@ def _run_lines(exe, lines, timeout, label, extra_env=None):
         if idx < n and len(outs) < len(chunk):
             results.append(sig)
             idx += 1
+            if sig == "HANG":
+                hangs += 1
+                if hangs >= MAX_HANGS_PER_SHARD:
+                    # every hang costs a full timeout: the violation is established, the rest of the shard is not run
+                    results.extend(["NOHARNESS not-run-after-%d-hangs" % hangs] * (n - idx))
+                    idx = n
     return results
 
 
